@@ -60,11 +60,18 @@ pub fn run(cfg: &Cfg) -> Report {
                     }
                 } else {
                     // stream maps: every snapshot entry comes from an append (key/value pairs may be deduplicated)
+                    let appended: Vec<serde_json::Value> = so_far.iter().filter_map(|a| serde_json::from_str::<serde_json::Value>(&a.value).ok()).collect();
                     for v in &snap.values {
-                        let val = serde_json::from_str::<serde_json::Value>(v).ok().and_then(|x| x.get("value").cloned());
-                        let found = val.map(|val| so_far.iter().any(|a| serde_json::from_str::<serde_json::Value>(&a.value).ok() == Some(val.clone()))).unwrap_or(false);
-                        if !found {
-                            st.violation("C13", "map-content-not-appended", &format!("step {} at {}: {} as seen by canon holds {} which was never appended", s.idx, w.peers[s.peer].name, snap.name, proj::trunc(v, 60)), case, ctx());
+                        let parsed = serde_json::from_str::<serde_json::Value>(v).unwrap_or(serde_json::Value::Null);
+                        // canon into a canon map: {"key":..,"value":..} entries; canon into a scalar: one object key -> value
+                        let members: Vec<serde_json::Value> = match (parsed.get("key"), parsed.get("value")) {
+                            (Some(_), Some(val)) if parsed.as_object().map(|o| o.len() == 2).unwrap_or(false) => vec![val.clone()],
+                            _ => parsed.as_object().map(|o| o.values().cloned().collect()).unwrap_or_else(|| vec![parsed.clone()]),
+                        };
+                        for val in members {
+                            if !appended.contains(&val) {
+                                st.violation("C13", "map-content-not-appended", &format!("step {} at {}: {} as seen by canon holds {} which was never appended", s.idx, w.peers[s.peer].name, snap.name, proj::trunc(&val.to_string(), 60)), case, ctx());
+                            }
                         }
                     }
                     if snap.values.len() > so_far.len() {
